@@ -3,7 +3,10 @@
 package server
 
 import (
+	"os"
+	"strings"
 	"sync"
+	"sync/atomic"
 	"testing"
 
 	"github.com/openconfig/gribigo/rib"
@@ -20,13 +23,15 @@ func TestVfRaceStress(t *testing.T) {
 		t.Fatal(err)
 	}
 	var wg sync.WaitGroup
+	var ctr uint64
 	for i := 0; i < 4; i++ {
 		i := i
 		wg.Add(1)
 		go func() {
 			defer wg.Done()
-			for k := 0; k < 30; k++ {
-				id := &spb.Uint128{High: 1, Low: uint64(10*k + i + 1)}
+			for k := 0; k < 150; k++ {
+				// every new session announces the highest id so far, so it is the primary until the next one announces
+				id := &spb.Uint128{High: 1, Low: atomic.AddUint64(&ctr, 1)}
 				nh, g := uint64(100+i), uint64(200+i)
 				pfx := []string{"10.0.0.1/32", "10.0.0.2/32", "10.0.0.3/32", "10.0.0.4/32"}[i]
 				del := func(o *spb.AFTOperation, id uint64) *spb.AFTOperation {
@@ -60,10 +65,85 @@ func TestVfRaceStress(t *testing.T) {
 			defer wg.Done()
 			for k := 0; k < 60; k++ {
 				s.Flush(nil, &spb.FlushRequest{NetworkInstance: &spb.FlushRequest_All{All: &spb.Empty{}},
-					Election: &spb.FlushRequest_Id{Id: &spb.Uint128{High: 1, Low: uint64(k)}}})
+					Election: &spb.FlushRequest_Id{Id: &spb.Uint128{High: 1, Low: atomic.LoadUint64(&ctr)}}})
 				s.Flush(nil, &spb.FlushRequest{NetworkInstance: &spb.FlushRequest_All{All: &spb.Empty{}}, Election: &spb.FlushRequest_Override{Override: &spb.Empty{}}})
 			}
 		}()
 	}
 	wg.Wait()
+}
+
+// TestVfRacePair runs two roles of VfC11_lockset concurrently (named in $VF_RACE_PAIR as
+// "roleA|roleB", e.g. "session-A:operation|flush:any") in tight loops over rotating concrete
+// inputs; under `go test -race` it is the targeted confirmation of one lock-discipline finding.
+func TestVfRacePair(t *testing.T) {
+	spec := os.Getenv("VF_RACE_PAIR")
+	if spec == "" {
+		t.Skip("no VF_RACE_PAIR")
+	}
+	parts := strings.Split(spec, "|")
+	if len(parts) != 2 {
+		t.Fatalf("bad VF_RACE_PAIR %q", spec)
+	}
+	parse := func(r string) (role int, sess string) {
+		sess = "A"
+		if strings.HasPrefix(r, "session-") {
+			sess = r[len("session-") : len("session-")+1]
+			r = r[len("session-X:"):]
+		}
+		for i, n := range vfC11RoleNames {
+			if n == r {
+				return i, sess
+			}
+		}
+		t.Fatalf("unknown role %q", r)
+		return
+	}
+	ra, sa := parse(parts[0])
+	rb, sb := parse(parts[1])
+	id := &spb.Uint128{High: 1, Low: 1}
+	ops := func(k int) *spb.AFTOperation {
+		del := func(o *spb.AFTOperation) *spb.AFTOperation { o.Op = spb.AFTOperation_DELETE; return o }
+		switch k % 8 {
+		case 0:
+			return vfNHOp(1, DefaultNetworkInstanceName, 5, id)
+		case 1:
+			return vfNHGOp(1, DefaultNetworkInstanceName, 5, 5, id)
+		case 2:
+			return vfV4Op(1, DefaultNetworkInstanceName, "9.9.9.9/32", 5, id)
+		case 3:
+			return vfV4Op(1, DefaultNetworkInstanceName, "9.9.9.9/32", 1, id) // moves the reference
+		case 4:
+			return del(vfV4Op(1, DefaultNetworkInstanceName, "9.9.9.9/32", 1, id))
+		case 5:
+			return del(vfNHGOp(1, DefaultNetworkInstanceName, 5, 5, id))
+		case 6:
+			return del(vfNHOp(1, DefaultNetworkInstanceName, 5, id))
+		}
+		return vfNHGOp(1, DefaultNetworkInstanceName, 7, 99, id) // held (unresolved)
+	}
+	for _, primary := range []string{"A", "B"} {
+		s := vfC11Setup(primary)
+		var wg sync.WaitGroup
+		run := func(role int, sess string) {
+			defer wg.Done()
+			for k := 0; k < 400; k++ {
+				in := &vfC11In{ack: k % 2, eHi: 1, eLo: 1, op: ops(k), flushElec: 1 + k%2, fHi: 1, fLo: 1}
+				vfC11Role(s, role, sess, in)
+				if role == 4 { // re-create what disconnect removed so that the loop keeps exercising it
+					s.newClient(sess)
+				}
+				if role == 6 && k%4 == 0 {
+					func() {
+						defer func() { recover() }()
+						vfC11Seed(s)
+					}()
+				}
+			}
+		}
+		wg.Add(2)
+		go run(ra, sa)
+		go run(rb, sb)
+		wg.Wait()
+	}
 }
